@@ -56,6 +56,28 @@ let put_res f = function
   | Mismatch -> A "mismatch"
   | Panic -> A "panic"
 
+
+(* ---- clap model / wrappers (C20) ---- *)
+let put_perr = function
+  | EUnknownSubcommand -> L [A "UnknownSubcommand"]
+  | EUnknownArgument t -> L [A "UnknownArgument"; put_bytes t]
+  | EMissingValue i -> L [A "MissingValue"; put_bytes i]
+  | EInvalidValue (i, v) -> L [A "InvalidValue"; put_bytes i; put_bytes v]
+  | EUnexpectedValue i -> L [A "UnexpectedValue"; put_bytes i]
+  | ETooManyPositionals t -> L [A "TooManyPositionals"; put_bytes t]
+  | EMissingRequired i -> L [A "MissingRequired"; put_bytes i]
+  | EConflict (a, b) -> L [A "Conflict"; put_bytes a; put_bytes b]
+  | EUsedTwice i -> L [A "UsedTwice"; put_bytes i]
+let put_pres = function
+  | POk seen -> L [A "ok"; put_list put_bytes seen]
+  | PErr e -> L [A "err"; put_perr e]
+let put_fval = function
+  | FAbsent -> A "absent"
+  | FStr s -> L [A "s"; put_bytes s]
+  | FBool b -> L [A "b"; put_bool b]
+  | FList l -> L [A "l"; put_list put_bytes l]
+  | FNum n -> L [A "n"; put_n n]
+
 (* ---- serde (C17) ---- *)
 let get_optb = get_opt get_bytes
 let get_hunk = function
@@ -266,6 +288,19 @@ let dispatch (req : Sexp.t) : Sexp.t =
         let l = get_list (function L [p; d] -> { en_path = get_path p; en_dir = get_bool d } | _ -> failwith "entry") l in
         let rs = plan_listing (name_by_map m) (get_bool rf) (get_bool rd) l in
         put_list (fun r -> L [put_path r.ar_path; put_path r.ar_new; put_bool r.ar_dir]) rs
+      | "clap_accepts", [argv] -> put_pres (clap_accepts (get_list get_bytes argv))
+      | "wrapper_names", [] ->
+        put_list (fun ((n, _), fs) -> L [put_bytes n; put_int (List.length (all_opts fs))]) gen_builders
+      | "wrapper_space", [name; stride; offset] ->
+        let name = get_bytes name and stride = get_int stride and offset = get_int offset in
+        let ((_, b), fs) = List.find (fun ((n, _), _) -> n = name) gen_builders in
+        let out = ref [] and i = ref 0 in
+        List.iter (fun o ->
+            if !i mod stride = offset then begin
+              let v = b o in
+              out := L [put_list (fun (k, x) -> L [put_bytes k; put_fval x]) o; put_list put_bytes v; put_pres (clap_accepts v)] :: !out
+            end; incr i) (all_opts fs);
+        L (List.rev !out)
       | "spec_apply", [p; t] -> put_fs (spec_apply (get_aplan p) (get_fs t))
       | "serde_plan", [p] ->
         let p = get_plan p in
